@@ -21,7 +21,8 @@ namespace BitSerializer::Detail
 			auto hint = cont.begin();
 			while (!scope.IsEnd())
 			{
-				TValue value;
+				// The value must be initialized (it can be skipped according to the policies)
+				TValue value{};
 				Serialize(scope, value);
 				hint = cont.insert(hint, std::move(value));
 			}
